@@ -68,12 +68,31 @@ func lroutes(rec *sync.Map) RouteList {
 		io.ReadFull(cx, buf)
 		return next.Handle(cx.Wrap(lpass{Conn: cx.Conn, r: cx}))
 	})))
+	// like a TLS-terminating handler: it consumes everything it matched on (the outer Connection is drained, so the Connection
+	// returned by Wrap takes over the pooled buffer) and what follows is read through the wrapper; the route after it asks for
+	// data (prefetched through the wrapper into that buffer) and does not match, so the connection is handed over with
+	// prefetched bytes that nobody has read yet
+	xrp := &Route{matcherSets: first('X', 5)}
+	xrp.middleware = append(xrp.middleware, wrapHandler(NextHandlerFunc(func(cx *Connection, next Handler) error {
+		buf := make([]byte, 5)
+		io.ReadFull(cx, buf)
+		return next.Handle(cx.Wrap(lpass{Conn: cx.Conn, r: cx}))
+	})))
+	zrt := &Route{matcherSets: first('Z', 2)}
+	zrt.middleware = append(zrt.middleware, wrapHandler(NextHandlerFunc(func(cx *Connection, next Handler) error { return nil })))
+	// a terminal route that needs two reads of a fragmented client before it matches
+	frg := &Route{matcherSets: first('F', 5)}
+	frg.middleware = append(frg.middleware, wrapHandler(NextHandlerFunc(func(cx *Connection, next Handler) error {
+		got, _ := io.ReadAll(cx)
+		rec.Store(cx.RemoteAddr().String(), got)
+		return nil
+	})))
 	rej := &Route{matcherSets: MatcherSets{MatcherSet{&vmErr{'E'}}}}
 	big := &Route{matcherSets: first('B', 3000)} // forces several prefetch rounds, then falls through
 	big.middleware = append(big.middleware, wrapHandler(NextHandlerFunc(func(cx *Connection, next Handler) error { return next.Handle(cx) })))
 	// wrp is last: nothing re-matches after it, so the bytes it left unread are still in the outer connection's (pooled) buffer
 	// when the connection is handed over
-	return RouteList{term, cons, rej, big, wrp}
+	return RouteList{term, frg, cons, rej, big, xrp, zrt, wrp}
 }
 
 // lpass reads through the Connection it was made from (what a protocol-terminating wrapper does)
@@ -165,13 +184,13 @@ func runListenerHistory(r *vrng, h lhist) (sig, desc string, summary string) {
 	var cmu sync.Mutex
 	var cwg sync.WaitGroup
 	for i := 0; i < h.n; i++ {
-		class := []byte{'H', 'H', 'C', 'T', 'E', 'B', 'H', 'W', 'W'}[r.intn(9)]
+		class := []byte{'H', 'H', 'C', 'T', 'E', 'B', 'H', 'W', 'W', 'X', 'X', 'F'}[r.intn(12)]
 		if h.ipOnly {
 			class = 'H'
 		}
 		n := r.pick(1, 2, 5, 6, 100, 2048, 2049, 5000)
-		if (class == 'C' || class == 'W') && n < 5 {
-			n = 6
+		if (class == 'C' || class == 'W' || class == 'X' || class == 'F') && n < 7 {
+			n = 7
 		}
 		if class == 'B' {
 			n = r.pick(3000, 4097, 6000)
@@ -195,7 +214,19 @@ func runListenerHistory(r *vrng, h lhist) (sig, desc string, summary string) {
 			c.addr = conn.LocalAddr().String()
 			byAddr[c.addr] = c
 			cmu.Unlock()
-			conn.Write(c.stream)
+			switch c.class {
+			case 'X':
+				// what the wrapping handler consumes, then (later) what is read through the wrapper
+				conn.Write(c.stream[:5])
+				time.Sleep(4 * time.Millisecond)
+				conn.Write(c.stream[5:])
+			case 'F':
+				conn.Write(c.stream[:2])
+				time.Sleep(3 * time.Millisecond)
+				conn.Write(c.stream[2:])
+			default:
+				conn.Write(c.stream)
+			}
 			conn.(*net.TCPConn).CloseWrite()
 			conn.SetReadDeadline(time.Now().Add(6 * time.Second))
 			_, err = io.ReadAll(conn)
@@ -245,7 +276,7 @@ func runListenerHistory(r *vrng, h lhist) (sig, desc string, summary string) {
 		// let every client that falls through be delivered, then close
 		want := 0
 		for _, c := range clients {
-			if c.class == 'H' || c.class == 'C' || c.class == 'B' || c.class == 'W' {
+			if c.class == 'H' || c.class == 'C' || c.class == 'B' || c.class == 'W' || c.class == 'X' {
 				want++
 			}
 		}
@@ -294,12 +325,15 @@ func runListenerHistory(r *vrng, h lhist) (sig, desc string, summary string) {
 		if count[d.addr] > 1 {
 			return "delivered-twice", fmt.Sprintf("client %d (class %c) was delivered %d times", c.id, c.class, count[d.addr]), ""
 		}
-		if c.class == 'T' || c.class == 'E' {
+		if c.class == 'T' || c.class == 'E' || c.class == 'F' {
 			return "consumed-but-delivered", fmt.Sprintf("client %d of class %c (consumed by a terminal handler / rejected by a matcher error) was delivered to Accept", c.id, c.class), ""
 		}
 		want := c.stream
 		if c.class == 'C' || c.class == 'W' {
 			want = c.stream[3:]
+		}
+		if c.class == 'X' {
+			want = c.stream[5:]
 		}
 		if !bytes.Equal(d.got, want) {
 			// whose bytes are these?
@@ -315,7 +349,7 @@ func runListenerHistory(r *vrng, h lhist) (sig, desc string, summary string) {
 		if c.err != nil {
 			continue
 		}
-		if c.class == 'T' {
+		if c.class == 'T' || c.class == 'F' {
 			if v, ok := rec.Load(c.addr); ok && !bytes.Equal(v.([]byte), c.stream) {
 				return "terminal-stream", fmt.Sprintf("client %d: the terminal handler read %d bytes, the client sent %d", c.id, len(v.([]byte)), len(c.stream)), ""
 			}
@@ -323,7 +357,7 @@ func runListenerHistory(r *vrng, h lhist) (sig, desc string, summary string) {
 		if !c.sawEOF {
 			return "not-closed", fmt.Sprintf("client %d (class %c, delivered %d times) never saw its connection closed after the listener was closed", c.id, c.class, count[c.addr]), ""
 		}
-		if (c.class == 'H' || c.class == 'C' || c.class == 'B' || c.class == 'W') && count[c.addr] == 0 && closedAt < 0 && h.closeAfter < 0 {
+		if (c.class == 'H' || c.class == 'C' || c.class == 'B' || c.class == 'W' || c.class == 'X') && count[c.addr] == 0 && closedAt < 0 && h.closeAfter < 0 {
 			return "not-delivered", fmt.Sprintf("client %d (class %c, %d bytes, addr %s) fell through all routes but was never delivered although the listener was still open (delivered %d, accepts %d)", c.id, c.class, len(c.stream), c.addr, len(delivered), accepts), ""
 		}
 	}
